@@ -126,6 +126,9 @@ type Case struct {
 	// Swap: the stream was built around another connection first and got the transport it really uses through
 	// SetConnection (what the TLS upgrade does): it is THAT connection a cancellation has to close
 	Swap bool `json:"swap,omitempty"`
+	// Timeout: SetTimeout(30 s) was called on the stream at some earlier point (a socket-level time limit, far
+	// away): cancellation must still interrupt at once
+	Timeout bool `json:"timeout,omitempty"`
 	Shape   string `json:"shape"`
 	Role    string `json:"role"` // endpoint under test: client | server | sender | receiver
 	Kind    string `json:"kind"` // read | write | ""
@@ -321,6 +324,9 @@ func runCase(c Case) outcome {
 			_ = other.Close()
 			es = stream.NewStream(first)
 			es.SetConnection(econn)
+		}
+		if c.Timeout {
+			_ = es.SetTimeout(30 * time.Second)
 		}
 		switch c.Role {
 		case "serveconn":
@@ -605,10 +611,10 @@ func TestC19Stalls(t *testing.T) {
 		for _, v := range variants {
 			// every other stall point runs over a transport with separable halves (a TCP-like socket)
 			for k := 0; k < base.reads; k++ {
-				jobs = append(jobs, job{Case{Shape: p.shape, Role: p.role, Kind: "read", K: k, Variant: v, Half: (k+len(v))%2 == 0, Swap: (k+len(v))%3 == 0}, base})
+				jobs = append(jobs, job{Case{Shape: p.shape, Role: p.role, Kind: "read", K: k, Variant: v, Half: (k+len(v))%2 == 0, Swap: (k+len(v))%3 == 0, Timeout: (k+len(v))%4 == 1}, base})
 			}
 			for k := 0; k < base.writes; k++ {
-				jobs = append(jobs, job{Case{Shape: p.shape, Role: p.role, Kind: "write", K: k, Variant: v, Half: (k+len(v))%2 == 1, Swap: (k+len(v))%3 == 1}, base})
+				jobs = append(jobs, job{Case{Shape: p.shape, Role: p.role, Kind: "write", K: k, Variant: v, Half: (k+len(v))%2 == 1, Swap: (k+len(v))%3 == 1, Timeout: (k+len(v))%4 == 2}, base})
 			}
 		}
 	}
